@@ -24,7 +24,16 @@ def handleC44 (j : Json) : Except String Verdict := do
     if e.k == "compile_end" then lastEnd := e.v
     if e.k == "quiesce" then
       if !e.ok then
-        return .specfalse "not-idle" s!"event {i}: the server did not settle within the timeout after the last edit (latest={e.v}, clients have {e.last}) :: {window s.evs i}"
+        -- the server stopped making progress without reaching an idle point: say which promise is broken
+        if lastEnd != e.v then
+          return .specfalse "latestCompiled" s!"event {i}: the server went silent ({e.why}) with latest version {e.v} but the last compile produced {lastEnd}: a compile request was lost :: {window s.evs i}"
+        for id in e.live do
+          match e.last.find? (·.1 == id) with
+          | some (_, l) =>
+            if l != e.v then
+              return .specfalse "latestDelivered" s!"event {i}: the server went silent ({e.why}) with latest version {e.v} compiled but client {id} last received {l} :: {window s.evs i}"
+          | none => pure ()
+        return .specfalse "not-idle" s!"event {i}: the server did not settle ({e.why}) after the last edit (latest={e.v}, clients have {e.last}) :: {window s.evs i}"
       if lastEnd != e.v then
         return .specfalse "latestCompiled" s!"event {i}: idle, latest version {e.v} but the last compile produced {lastEnd} :: {window s.evs i}"
       for id in e.live do
